@@ -68,6 +68,12 @@ CHECKS['C14'] = dict(
          'references and both construction paths; each is executed by the real Program.run with a lowered recursion limit and must be rejected with the recursive-model error - never return normally with unexecuted commands, never exhaust the stack.',
     note='Trusted: z3 (structure enumeration under the cycle constraint), harness library; every path is a real execution.',
     ref='DESIGN.md §3 C14')
+CHECKS['C02'] = dict(
+    technique='symbolic execution of whole models through the real from_source+run on symbolic input arrays; per-command result == reference evaluation of the graph (z3), every path replayed through the real pipeline with real numpy',
+    text='Bounded symbolic model checking of composition: typed producer->consumer pairs (all built-in data commands covered; all pairs in the thorough tier), both file orders (forward references), Metadata in any argument position, '
+         'shared intermediates and sampled depth-3 chains/diamonds are parsed and run by the real Program on symbolic masked input arrays; every command result is proved equal (mask and non-missing values) to the reference semantics applied bottom-up along the dependency graph.',
+    note='Trusted: z3, symnp (validated per path against real numpy through the same model text), mpv/oracle.py; parameters are concrete literals here (C06-C08 vary them); deeper shapes are sampled with VERIF_SEED and labelled so.',
+    ref='DESIGN.md §2 C02')
 NOT_YET = {}
 ALL = ['C%02d' % i for i in range(1, 21)]
 
